@@ -194,7 +194,7 @@ PROPS = {
     ),
     "C12": dict(
         kani=["c12_hasher_flow", "c12_cache_identity", "c12_put_records", "c12_get_records"],
-        verus=["cache_get_guard"],
+        verus=["cache_get_guard", "hash_transformed_tail"],
         prefixes=["C12."],
         category="proof",
         trust=["A1 verifiers", "HashCache::get / put are replaced by a one-slot ghost cache (get's validation `if` is the Verus unit cache_get_guard)",
@@ -241,8 +241,8 @@ PROPS = {
     ),
     "C01": dict(
         kani=[],
-        verus=["stage_chunks", "scan_loop"],
-        prefixes=["C01."],
+        verus=["stage_chunks", "scan_loop", "hash_transformed_tail"],
+        prefixes=["C01.", "C12.hash_transformed."],
         category="proof",
         trust=[],
         design_ref="DESIGN.md §5 C01",
